@@ -632,7 +632,8 @@ func (r *Recorder) middleware(input *graphql.ComputationInput, next graphql.Midd
 		IsMut: input.ParsedQuery != nil && input.ParsedQuery.Kind == "mutation"}
 	if out.Error != nil {
 		e.Err = graphql.SanitizeError(out.Error)
-		e.Cancel = graphql.ErrorCause(out.Error) == context.Canceled
+		// the silent path of server.go: the cause is context.Canceled and the computation's own context is cancelled
+		e.Cancel = graphql.ErrorCause(out.Error) == context.Canceled && input.Ctx.Err() != nil
 	} else {
 		e.Current = roundTrip(out.Current)
 		if m, ok := out.Current.(map[string]interface{}); ok {
